@@ -223,7 +223,31 @@ def check_masks(ctx: Ctx) -> None:
     ctx.ob("17.4-indices", conh, ok, "(start, end, size) of a variable are stored under its own name, with its own size", node=(stt or [h])[0])
 
 
+def check_equilibrium(ctx: Ctx) -> None:
+    """17.5: the start-at-equilibrium MDA of IDF runs at the current point of the design space."""
+    f = ctx.index.method(IDF, "IDF", "_compute_equilibrium")
+    con = cname(IDF, "IDF", "_compute_equilibrium")
+    ex = [c for c in walk_body(f) if isinstance(c, ast.Call) and isinstance(c.func, ast.Attribute) and c.func.attr == "execute" and isinstance(c.func.value, ast.Call) and "MDA" in (dotted(c.func.value.func) or "")]
+    ok = len(ex) == 1
+    if ok:
+        a = ex[0].args[0] if ex[0].args else next((k.value for k in ex[0].keywords if k.arg == "input_data"), None)
+        defs = {s.targets[0].id: s.value for s in stmts_of(f) if isinstance(s, ast.Assign) and isinstance(s.targets[0], ast.Name)}
+        v = defs.get(a.id) if isinstance(a, ast.Name) else a
+        ok = v is not None and isinstance(v, ast.Call) and last_attr(v) == "get_current_value" and "design_space" in norm_stmt(v.func) and any(k.arg == "as_dict" and getattr(k.value, "value", None) is True for k in v.keywords)
+    ctx.ob("17.5-equilibrium", con, bool(ok), "the equilibrium MDA must be executed at the current value of the design space (as a dictionary); without it the disciplines run at their own defaults and the stored couplings belong to another design point", node=(ex or [f])[0], stmt="MDA executed at design_space.get_current_value(as_dict=True)")
+    sets = [c for c in walk_body(f) if isinstance(c, ast.Call) and last_attr(c) == "set_current_variable"]
+    loops = [s for s in stmts_of(f) if isinstance(s, ast.For) and sets and sets[0] in list(ast.walk(s))]
+    ok = len(sets) == 1 and len(loops) == 1 and norm_stmt(loops[0].iter) == "self.all_couplings" and dotted(sets[0].args[0]) == dotted(loops[0].target)
+    if ok:
+        val = sets[0].args[1]
+        ldefs = {s.targets[0].id: s.value for s in ast.walk(loops[0]) if isinstance(s, ast.Assign) and isinstance(s.targets[0], ast.Name)}
+        val = ldefs.get(val.id, val) if isinstance(val, ast.Name) else val
+        ok = isinstance(val, ast.Subscript) and dotted(val.slice) == dotted(loops[0].target)
+    ctx.ob("17.5-equilibrium", con, bool(ok), "every coupling of the design space takes the MDA output of the same name", node=(sets or [f])[0], stmt="design_space[coupling] = MDA output[coupling]")
+
+
 def run(ctx: Ctx) -> None:
+    check_equilibrium(ctx)
     check_design_spaces(ctx)
     check_constraint(ctx)
     check_identity_block(ctx)
@@ -232,6 +256,8 @@ def run(ctx: Ctx) -> None:
 
 # ---------------------------------------------------------------------------
 WITNESSES = [
+    {"name": "equilibrium-at-discipline-defaults", "file": IDF, "old": "        ).execute(current_x)", "new": "        ).execute()", "expect": "17.5"},
+    {"name": "identity-rows-by-position-times-size", "file": CC, "old": "            o_min = 0\n            o_max = 0\n            for out in self.__output_couplings:\n", "new": "            for index, out in enumerate(self.__output_couplings):\n                o_min = index * self.__dv_len[out]\n                o_max = o_min\n", "expect": "17."},
     {"name": "mdf-keeps-couplings", "file": MDF, "old": "        # No couplings in design space (managed by MDA)\n        self._remove_couplings_from_ds()\n", "new": "", "expect": "17.1"},
     {"name": "mdf-builds-functions-first", "file": MDF, "old": "        self._update_design_space()\n        self._build_objective_from_disc(objective_name, discipline=self.mda)", "new": "        self._build_objective_from_disc(objective_name, discipline=self.mda)\n        self._update_design_space()", "expect": "17.1"},
     {"name": "mdf-removes-non-couplings", "file": MDF, "old": "            if coupling in design_space:\n                design_space.remove_variable(coupling)", "new": "            if coupling not in design_space:\n                design_space.remove_variable(coupling)", "expect": "17.1"},
